@@ -45,6 +45,18 @@ SUMMARY = {
  "C11b": "mmap() fails when either meta page has a non-checksum validation error (one damaged magic/version byte makes Open fail)",
  "C01c": "shared.Free puts the pages of a multi-page freelist straight on the free list (the same commit overwrites the freelist the durable meta still points at)",
  "C09b": "hashMap.Init no longer resets freePagesCount (after a Reload the count is too large and Write serialises page id 0 entries)",
+ "C12c": "Bucket.inlineable consults only the buckets opened in this transaction (a small bucket that holds a sub-bucket is written inline)",
+ "C17c": "mmap()'s error path calls invalidate() instead of munmap() (the leaked mapping keeps a read-only handle's flock after a failed Open)",
+ "C14c": "CopyFile's deferred Close overwrites the error of WriteTo (a truncated backup is reported as success)",
+ "C04c": "DeleteBucket collects nested bucket names with ForEach and v == nil instead of ForEachBucket (a key put with a nil value looks like a bucket)",
+ "C16c": "batch.run sends a shadowed outer err to the callers (always nil: a batch whose commit failed reports success)",
+ "C07c": "tx.rollback(): NoSyncReload -> Init in the NoFreelistSync branch (pending pages of open readers are also free after a physical rollback)",
+ "C19c": "freelist Read de-duplicates the ids it loads (a page listed twice as free is never reported)",
+ "C06c": "nonPhysicalRollback skips freelist.Rollback when tx.pages is empty (a rolled-back DeleteBucket leaves live pages pending; the next writer frees and overwrites them)",
+ "C15c": "Compact sets the new bucket's sequence with SetInSequence (header only): empty buckets and buckets cut off by the tx-size limit lose their sequence",
+ "C05c": "Cursor.keyValue indexes the in-memory node with a uint16 (positions beyond 65535 in one uncommitted leaf wrap around)",
+ "C20c": "surgery freelist abandon returns early when meta page 0 has no freelist (meta page 1 keeps pointing at one)",
+ "C02c": "?",
 }
 rows = []
 for d in sorted(glob.glob("/verif/seeded/*/meta.json")):
